@@ -1,7 +1,8 @@
 CONSTANTS
- MaxLen = 4
+ MaxLen = 3
  Alpha = "all"
  Variant = "pinned"
+ Pols = {"all", "g1", "g2"}
 SPECIFICATION Spec
 INVARIANT EmitPrediction
 CHECK_DEADLOCK FALSE
